@@ -228,13 +228,13 @@ def run_failing(env, s):
     elif kind == "op_type":
         mg.add(t, "abc")
     elif kind == "view_index":
-        t[(17,) * max(t.ndim, 1)]
+        t[(t.size + 17,) * max(t.ndim, 1)]
     elif kind == "view_reshape":
         t.reshape(t.size + 1)
     elif kind == "view_transpose":
         mg.transpose(t, (5, 6, 7, 8))
     elif kind == "inplace_index":
-        t[(17,) * max(t.ndim, 1)] = 1.0
+        t[(t.size + 17,) * max(t.ndim, 1)] = 1.0
     elif kind == "inplace_shape":
         t[...] = np.ones((7, 5, 3))
     elif kind == "inplace_aug":
@@ -298,13 +298,27 @@ def census():
 
 
 def run_case(case):
+    """wrapper: every local of the statement interpreter (operands, results, loop variables) is gone when _run_case returns, so the census
+    below counts only what MyGrad itself keeps alive"""
     reset_global_state()
-    if case.get("guard") is False:
-        mg.turn_memory_guarding_off()
     base_census = None
     if case.get("census"):
         gc.collect()
         base_census = census()
+    res = _run_case(case)
+    if base_census is not None:
+        # the caller now references nothing: reference counting alone (gc is disabled) must have freed every tensor, operation and placeholder
+        del INDEX_ARRAYS[:]
+        reset_global_state()
+        now = census()
+        res["leaked"] = {"tensors": now[0] - base_census[0], "ops": now[1] - base_census[1]}
+        gc.collect()
+    return res
+
+
+def _run_case(case):
+    if case.get("guard") is False:
+        mg.turn_memory_guarding_off()
     env = Env()
     outcomes, observations = [], []
     identity_lost = []
@@ -422,25 +436,16 @@ def run_case(case):
         wr = {n: weakref.ref(t) for n, t in env.t.items() if isinstance(t, mg.Tensor)}
         wr.update(dead_refs)
         keep = set(case.get("keep", []))
-        t = arr = None          # the runner's own loop variables must not keep a tensor alive
+        t = arr = ops = r = None          # the runner's own variables must not keep a tensor alive
         for n in list(env.t):
             if n not in keep:
                 del env.t[n]
         alive = {n: (r() is not None) for n, r in wr.items()}
     env.t.clear()
-    leaked = None
-    if base_census is not None:
-        # the caller now references nothing: reference counting alone (gc is disabled) must have freed every tensor, operation and placeholder
-        t = arr = None
-        env.owned = []
-        del INDEX_ARRAYS[:]
-        reset_global_state()
-        now = census()
-        leaked = {"tensors": now[0] - base_census[0], "ops": now[1] - base_census[1]}
-        gc.collect()
+    env.owned = []
     errs = list(OBSERVE_ERRORS)
     del OBSERVE_ERRORS[:]
-    return {"leaked": leaked, "outcomes": outcomes, "observations": observations, "alive": alive, "identity_lost": identity_lost, "observe_errors": errs, "owned_modified": owned_modified}
+    return {"leaked": None, "outcomes": outcomes, "observations": observations, "alive": alive, "identity_lost": identity_lost, "observe_errors": errs, "owned_modified": owned_modified}
 
 
 def run_repeat(case):
